@@ -137,7 +137,7 @@ def structure_stream(res, drv, tier, seed, viol):
 def pick_iters(r, want_exact):
     first = r.choice([100, 200]) if want_exact and r.random() < 0.7 else r.choice(SWEEPS)
     it = [first]
-    if r.random() < 0.4:
+    if r.random() < 0.55:
         it.append(r.choice([100, 200]) if want_exact and r.random() < 0.5 else r.choice(SWEEPS[:4]))
     return it
 
@@ -363,7 +363,7 @@ def oracle_stream(res, drv, tier, seed, viol):
     cases.append(pinned_hps_case(r))
     for i, c in enumerate(cases):
         c['with_callback'] = (i % 2 == 1)
-        c['rebind'] = (i % 3 == 0)
+        c['rebind'] = (i % 3 != 1)
     impls = []
     for c in cases:
         try:
